@@ -142,7 +142,7 @@ Print Assumptions notice_empty_iff.
         the whole model: stream "a\n\0", pattern b, capacity 2, quit mode: "a\n" is printed, no warning. *)
 Theorem quit_warning_if_lines_printed_refuted :
   exists (cfg : std_cfg) (lcfg : lb_config) (rd : reader),
-    let out := ss_out (fst (fst (rbl_run (std_step cfg (simple_render None 10)) (BQuit 0) lite_roll
+    let out := ss_out (fst (fst (rbl_run (std_step cfg (simple_render None None 10)) (BQuit 0) lite_roll
                  (lite_match [[98%N]] false true 10) lcfg 10 (lb_build lcfg) rd tt (st0, [])))) in
     sc_mode cfg = BQuit 0 /\ cfg_binary lcfg = BQuit 0 /\ In 0%N (rd_data rd) /\
     out = [97; 10]%N.
@@ -249,7 +249,7 @@ Proof. vm_compute. repeat split. Qed.
 Example convert_example :
   let cfg := mk_std_cfg (BConvert 0) None 0 None [10%N] None (fun _ => [34; 92; 48; 34]%N) in
   let lcfg := mk_cfg 8 10 AllocEager (BConvert 0) in
-  ss_out (fst (fst (rbl_run (std_step cfg (simple_render None 10)) (BConvert 0) lite_roll
+  ss_out (fst (fst (rbl_run (std_step cfg (simple_render None None 10)) (BConvert 0) lite_roll
                       (lite_match [[97%N]] false false 10) lcfg 10 (lb_build lcfg)
                       (mk_rd [] [97; 0; 97; 10]%N []) tt (st0, []))))
   = notice cfg 1 1.
